@@ -1,7 +1,8 @@
 """C07 — SSM serial optimiser: correspondence of Alg/SSM.v with stockpyl.ssm_serial.optimize_base_stock_levels
 (same grids and lead-time-demand tables, recomputed here exactly as the code does) + oracles on the implementation:
 evaluation mode, N = 1 vs newsvendor, exact top-down expected cost by enumeration of lead-time demands, brute-force
-search over level vectors, Shang-Song bracket, relabelling / parameter-shape / network-form invariance; session stream: chains of closely
+search over level vectors, Shang-Song bracket, relabelling / parameter-shape / network-form / network-construction-route (storage order of the
+node list) invariance through every entry point; session stream: chains of closely
 related instances solved one after the other in one process (each chain in a process of its own), full oracle on every in-session result and
 in-session result = result of solving the instance alone in a fresh process."""
 import math, itertools, json, os, sys, subprocess
@@ -14,7 +15,18 @@ RULE = ('N in 1..3 (quick) / 1..4 (thorough) stages; echelon holding costs k/4, 
         'the optimal echelon levels are frequently not increasing in the stage index); demand Poisson(mean 2..8, '
         'random tail-truncation probabilities), discrete uniform, custom discrete on a subset of 0..6 (weights/sum or dyadic probabilities; the (value, probability) pairs listed in increasing (40 %), decreasing (20 %) or '
         'shuffled (40 %) order of the values, and every custom-discrete instance re-solved with the same pairs listed in another order); random node '
-        'ids and list orders, list/dict parameter shape, parameter vs network form; plus a normal-demand stream (oracle only; x_num x d_num = 120 x 30, one-stage instances 400 x 100) and a malformed stream; '
+        'ids and list orders, list/dict parameter shape, parameter vs network form; a network object is put together by one of six construction routes of the '
+        'public API, drawn per case (serial_system; network_from_edges with the edges listed in chain order / downstream first / shuffled and the stockout '
+        'cost given for every node or the sink only; empty network + add_node in any node order + add_edge in any edge order; grown from any stage outwards '
+        'by add_successor / add_predecessor; serial_system under temporary ids + reindex_nodes; to_dict/from_dict round trip of any of these), so that the '
+        'node list of the object is stored upstream first, downstream first or in neither order (sink last or not); every case carries a second route and a '
+        'second labelling, and the system built that way goes through every entry point (optimize_base_stock_levels, expected_cost of S*, '
+        'newsvendor_heuristic weight 1 and 0) and must give the results of the primary form; half of the discrete cases: expected_holding_cost of a probe '
+        'vector (primary form, or the second-route network where the function cannot take the numbering) against the exact holding cost; 12 % of the '
+        'discrete cases: the grid in its documented forms (x = the default integer grid as int array / float arange / linspace; x_num, d_num passed on integer '
+        'demand; x = a user grid of integers lo..hi with lo in -6..0 and hi in 1..9 or beyond the default top, as int array and as linspace; x = one point <= 0); '
+        'normal demand also passed as demand_mean / demand_standard_deviation; a uniform-continuous-demand stream for newsvendor_heuristic only (lo 0..6, '
+        'width 1..8; bounds against the exact Irwin-Hall cdf); plus a normal-demand stream (oracle only; x_num x d_num = 120 x 30, one-stage instances 400 x 100) and a malformed stream (negative stockout cost, zero / negative lead time, a None holding cost, or lead_time / echelon_holding_cost / stockout_cost / demand_source not passed at all: ValueError from optimize_base_stock_levels and from newsvendor_heuristic); '
         'plus a session stream: chains of 2..3 closely related instances solved one after the other in the same process (a sensitivity study: same stages, '
         'costs and lead times, demand parameters perturbed - Poisson mean scaled or shifted by 0.001..0.004, two custom-discrete weights swapped (anywhere or '
         'only among the last 2..4 listed points), uniform range widened, normal mean / sd shifted by 0.001..0.004; fresh DemandSource object or the SAME object with its '
@@ -23,6 +35,9 @@ RULE = ('N in 1..3 (quick) / 1..4 (thorough) stages; echelon holding costs k/4, 
         'the regular regime; every instance of a chain gets the full oracle and model comparison, and its in-session result is compared with the result of '
         'solving it alone in a fresh process. '
         'non-trivial = N >= 2, every S*_j strictly inside the grid and the S*_j not all equal; distinct = distinct (N, h, L, p, demand).')
+
+ZERO_LEAD_TIME_VALID = False      # the library rejects lead_time = 0 with ValueError (the /repo change that accepted it was reverted: normal demand is not handled then)
+PROBE_LEVEL_ZERO = True          # expected_cost / expected_holding_cost used to refuse a level 0 ('echelon_S cannot be None'; repaired by fix d12a1ab): the probes of these two functions include level 0
 
 SIG_EVAL_ORDER = 'optimize_base_stock_levels|S-given|node-order-not-N..1'
 
@@ -70,6 +85,13 @@ def gen_case(rng, nmax, kinds=('P', 'UD', 'CD')):
     else:
         m = rng.randint(3, 8)
         dem = dict(kind='N', mean=m, sd=rng.choice([0.5, 1, 1.5]))
+    # a lead time of 0 is rejected by ssm_serial (malformed stream: 'zero-lead-time'); set ZERO_LEAD_TIME_VALID = True to make it part of the regular
+    # generator instead (one stage of 8 % of the multi-stage UD / CD / P instances; not stage 1 under Poisson demand, where newsvendor_heuristic calls
+    # newsvendor_poisson with mean 0)
+    zero_lt = False
+    if ZERO_LEAD_TIME_VALID and N >= 2 and rng.random() < 0.08:
+        j0 = rng.randrange(N)
+        if kind in ('UD', 'CD') or (kind == 'P' and j0 != 0): L[j0] = 0; zero_lt = True
     # node numbering, list order, shape, form
     if rng.random() < 0.3:
         order_sys = list(range(N, 0, -1)); default_order = rng.random() < 0.7
@@ -79,10 +101,129 @@ def gen_case(rng, nmax, kinds=('P', 'UD', 'CD')):
     c = dict(N=N, h=h, L=L, p=p, dem=dem, tails=tails, order_sys=order_sys, order_lists=order_lists, default_order=default_order,
              shape=rng.choice(['list', 'list', 'dict']), form=rng.choice(['params', 'params', 'network']), malformed=None,
              cost_regime='costly-upstream' if costly_upstream else 'regular')
+    if zero_lt: c['zero_lead_time'] = True
+    # how a network object for the instance is put together: 'route' when the instance itself is passed as a network, 'alt_route' = another way
+    # of building the same system, used by the invariance oracle (every entry point on the alt-route network vs. the primary form)
+    c['route'] = gen_route(rng, N)
+    c['alt_route'] = gen_route(rng, N, avoid=c['route'] if c['form'] == 'network' else None)
+    c['alt_ids'] = rng.sample(range(0, 15), N)      # by position in the system, upstream first (as order_sys)
+    c['probe_ehc'] = rng.random() < 0.5              # expected_holding_cost of a probe vector against the exact holding cost
+    if kind in ('P', 'UD', 'CD') and rng.random() < 0.12:
+        # documented forms of the truncation / discretisation grid on an integer-demand instance (see grid_forms)
+        c['grid_forms'] = dict(lo=-rng.randint(0, 6), top=rng.choice(['short', 'short', 'wide']), hi=rng.randint(1, 9), single=rng.choice([0, 0, -1, -3]),
+                               x_num=rng.randint(1, 60), d_num=rng.randint(1, 25), same_as=rng.choice(['float-arange', 'linspace']))
     if kind == 'N' and N == 1:
         c['grid'] = [400, 100]      # x_num, d_num: one stage is compared with newsvendor_normal at 2 %; the discretisation error of the 120 x 30 grid reaches 5.5 % there
                                     # (mean 8, sd 0.5, L 2, h 3, p 1: C* 0.844 vs 0.899; 0.902 on 400 x 100), on 400 x 100 it stays below 0.5 %
     return c
+
+
+ROUTES = ('serial_system', 'network_from_edges', 'add_node+add_edge', 'add_successor/add_predecessor', 'reindex_nodes', 'to_dict/from_dict')
+ROUTE_DRAW = [k for k, w in zip(ROUTES, (1, 3, 3, 3, 1, 2)) for _ in range(w)]      # serial_system and reindex_nodes always store the nodes upstream first
+
+
+def _some_order(rng, items):
+    """items is given in chain order (upstream first): keep it (15 %), reverse it (20 %), shuffle all but the last, most downstream, one (20 %) or
+    shuffle all (45 %)."""
+    items = list(items); u = rng.random()
+    if u < 0.15: return items
+    if u < 0.35: return items[::-1]
+    if u < 0.55:
+        head = items[:-1]; rng.shuffle(head)
+        return head + items[-1:]
+    rng.shuffle(items)
+    return items
+
+
+def gen_route(rng, N, avoid=None):
+    """one way of putting together the SupplyChainNetwork object of an N-stage serial system with the public construction API. Stages are numbered
+    1 (downstream) .. N; edge j is (stage j+1 -> stage j). The description is independent of the node ids, so the same route can be replayed
+    under another labelling.
+      serial_system                  the library's own builder (stores the nodes upstream first)
+      network_from_edges             the edges listed in 'edge_order' (chain order / downstream first / shuffled: the nodes are stored in order of first
+                                     appearance in the edge list); stockout cost given for every node or for the sink only
+      add_node+add_edge              empty network, nodes added in 'node_order', then edges added in 'edge_order'
+      add_successor/add_predecessor  network grown from the stage node_order[0] outwards, one neighbour at a time
+      reindex_nodes                  serial_system under temporary ids ('tmp_ids', by stage), then reindex_nodes to the wanted ids
+      to_dict/from_dict              round trip of the network of an inner route through its dict form"""
+    for _ in range(20):
+        kind = rng.choice(ROUTE_DRAW)
+        rt = dict(kind=kind)
+        if kind in ('network_from_edges', 'add_node+add_edge'):
+            rt['edge_order'] = _some_order(rng, range(N - 1, 0, -1))
+        if kind == 'network_from_edges':
+            rt['stockout'] = rng.choice(['every-node', 'sink-only'])
+        if kind == 'add_node+add_edge':
+            rt['node_order'] = _some_order(rng, range(N, 0, -1))
+        if kind == 'add_successor/add_predecessor':
+            s = rng.randint(1, N); lo = hi = s; order = [s]
+            while len(order) < N:
+                if hi == N or (lo > 1 and rng.random() < 0.5): lo -= 1; order.append(lo)
+                else: hi += 1; order.append(hi)
+            rt['node_order'] = order
+        if kind == 'reindex_nodes':
+            rt['tmp_ids'] = rng.sample(range(20, 40), N) if rng.random() < 0.6 else rng.sample(range(1, N + 1), N)
+        if kind == 'to_dict/from_dict':
+            rt['inner'] = gen_route(rng, N, avoid=dict(kind='to_dict/from_dict'))
+        if avoid is None or (rt != avoid and not (avoid.get('kind') == kind == 'to_dict/from_dict')): return rt
+    return rt
+
+
+def build_network(route, N, nos, hb, Lb, p, ds, ol=None, shape='dict'):
+    """the network object of the serial system with node ids nos = {stage j: id}, echelon holding costs hb and lead times Lb (by node id), stockout cost
+    p and demand source ds at stage 1, put together as described by route (see gen_route). ol / shape: order and shape of the per-node lists where the
+    route takes per-node lists."""
+    from stockpyl.supply_chain_network import SupplyChainNetwork, serial_system, network_from_edges
+    from stockpyl.supply_chain_node import SupplyChainNode
+    from stockpyl.demand_source import DemandSource
+    kind = route['kind']
+    ol = list(ol if ol is not None else [nos[j] for j in range(N, 0, -1)])
+    per_node = (lambda d: dict(d)) if shape == 'dict' else (lambda d: [d[n] for n in ol])
+    def node(j):
+        return SupplyChainNode(nos[j], echelon_holding_cost=hb[nos[j]], shipment_lead_time=Lb[nos[j]], stockout_cost=p if j == 1 else 0,
+                               demand_source=ds if j == 1 else DemandSource())
+    if kind == 'serial_system':
+        return serial_system(num_nodes=N, node_order_in_system=[nos[j] for j in range(N, 0, -1)], node_order_in_lists=ol,
+                             echelon_holding_cost=per_node(hb), shipment_lead_time=per_node(Lb), stockout_cost=p, demand_source=ds)
+    if kind == 'network_from_edges':
+        so = p if route['stockout'] == 'every-node' else per_node({nos[j]: (p if j == 1 else 0) for j in nos})
+        return network_from_edges(edges=[(nos[j + 1], nos[j]) for j in route['edge_order']], node_order_in_lists=ol, echelon_holding_cost=per_node(hb),
+                                  shipment_lead_time=per_node(Lb), stockout_cost=so, demand_source=ds)
+    if kind == 'add_node+add_edge':
+        net = SupplyChainNetwork()
+        for j in route['node_order']: net.add_node(node(j))
+        for j in route['edge_order']: net.add_edge(nos[j + 1], nos[j])
+        return net
+    if kind == 'add_successor/add_predecessor':
+        net = SupplyChainNetwork(); nd = {}; lo = hi = None
+        for j in route['node_order']:
+            nd[j] = node(j)
+            if lo is None: net.add_node(nd[j]); lo = hi = j
+            elif j > hi: net.add_predecessor(nd[hi], nd[j]); hi = j
+            else: net.add_successor(nd[lo], nd[j]); lo = j
+        return net
+    if kind == 'reindex_nodes':
+        tmp = {j: route['tmp_ids'][j - 1] for j in nos}
+        net = serial_system(num_nodes=N, node_order_in_system=[tmp[j] for j in range(N, 0, -1)], echelon_holding_cost={tmp[j]: hb[nos[j]] for j in nos},
+                            shipment_lead_time={tmp[j]: Lb[nos[j]] for j in nos}, stockout_cost=p, demand_source=ds)
+        net.reindex_nodes({tmp[j]: nos[j] for j in nos})
+        return net
+    if kind == 'to_dict/from_dict':
+        return SupplyChainNetwork.from_dict(build_network(route['inner'], N, nos, hb, Lb, p, ds, ol, shape).to_dict())
+    raise ValueError(kind)
+
+
+def route_label(route):
+    return route['kind'] if route['kind'] != 'to_dict/from_dict' else 'to_dict/from_dict(%s)' % route['inner']['kind']
+
+
+def storage_order(net, nos):
+    """how the node list of the network object is stored relative to the chain."""
+    N = len(nos); ids = list(net.node_indices)
+    if N == 1: return 'single node'
+    if ids == [nos[j] for j in range(N, 0, -1)]: return 'upstream first'
+    if ids == [nos[j] for j in range(1, N + 1)]: return 'downstream first'
+    return 'neither (%s)' % ('sink last' if ids[-1] == nos[1] else 'sink not last')
 
 
 def relist(rng, sup, w):
@@ -101,7 +242,9 @@ def cd_listing(dem):
 
 def gen_malformed(rng):
     c = gen_case(rng, 3, kinds=('UD', 'CD'))
-    c['malformed'] = rng.choice(['negative-stockout', 'zero-lead-time', 'negative-lead-time', 'missing-holding-cost'])
+    c['malformed'] = rng.choice([k for k in ('negative-stockout', 'zero-lead-time', 'negative-lead-time', 'missing-holding-cost',
+                                             'no-lead-time', 'no-holding-cost', 'no-stockout-cost', 'no-demand')      # no-...: the argument is not passed at all
+                                 if not (ZERO_LEAD_TIME_VALID and k == 'zero-lead-time')])
     c['form'] = 'params'; c['shape'] = 'list'
     return c
 
@@ -112,6 +255,7 @@ def gen_fine(rng, nmax):
     reg = rng.choice(['P-slow', 'P-slow', 'P-fine', 'P-fine', 'CD-long', 'CD-long', 'CD-long', 'N-fine'])
     c = gen_case(rng, nmax if reg != 'N-fine' else min(nmax, 2), kinds=('UD',))      # stages, costs, numbering, shape, form as in the regular stream
     N = c['N']; c['tails'] = None
+    if reg != 'CD-long': c['L'] = [max(1, l) for l in c['L']]; c.pop('zero_lead_time', None)      # zero lead times: discrete demand of the regular generator only
     if reg == 'P-slow':
         c['dem'] = dict(kind='P', mean=rng.randint(2, 60) / 1000)
         c['L'] = [rng.randint(3, 30) for _ in range(N)]
@@ -199,7 +343,10 @@ def mutate_ds(ds, dem):
     else: ds.mean = dem['mean']; ds.standard_deviation = dem['sd']
 
 
-def impl_kwargs(c, order_sys=None, order_lists=None, shape=None, form=None, default_order=None, ds_obj=None):
+def impl_kwargs(c, order_sys=None, order_lists=None, shape=None, form=None, default_order=None, ds_obj=None, route=None, extra=None, dem_form=None):
+    """route: how the network object is put together when form == 'network' (default: the case's own route; serial_system for cases without one).
+    extra: further keyword arguments (x, x_num, d_num). dem_form = 'mean-sd': normal demand passed as demand_mean / demand_standard_deviation
+    (parameter form only)."""
     N = c['N']
     os_ = list(order_sys if order_sys is not None else c['order_sys'])
     ol = list(order_lists if order_lists is not None else c['order_lists'])
@@ -217,16 +364,19 @@ def impl_kwargs(c, order_sys=None, order_lists=None, shape=None, form=None, defa
     ds = ds_obj if ds_obj is not None else make_ds(c['dem'])
     kw = {}
     if form == 'network':
-        from stockpyl.supply_chain_network import serial_system
-        net = serial_system(num_nodes=N, node_order_in_system=os_, node_order_in_lists=ol, echelon_holding_cost=hv,
-                            shipment_lead_time=Lv, stockout_cost=p, demand_source=ds)
-        kw['network'] = net
+        kw['network'] = build_network(route or c.get('route') or dict(kind='serial_system'), N, nos, hb, Lb, p, ds, ol, shape)
     else:
         kw.update(num_nodes=N, echelon_holding_cost=hv, lead_time=Lv, stockout_cost=p, demand_source=ds)
         if not default_order:
             kw.update(node_order_in_system=os_, node_order_in_lists=ol)
     if c['tails']: kw.update(c['tails'])
     if c['dem']['kind'] == 'N': kw.update(x_num=(c.get('grid') or [120, 30])[0], d_num=(c.get('grid') or [120, 30])[1])
+    if dem_form == 'mean-sd' and 'demand_source' in kw:
+        del kw['demand_source']; kw.update(demand_mean=c['dem']['mean'], demand_standard_deviation=c['dem']['sd'])
+    m = c.get('malformed')
+    if m in ('no-lead-time', 'no-holding-cost', 'no-stockout-cost', 'no-demand'):
+        kw.pop({'no-lead-time': 'lead_time', 'no-holding-cost': 'echelon_holding_cost', 'no-stockout-cost': 'stockout_cost', 'no-demand': 'demand_source'}[m])
+    if extra: kw.update(extra)
     return kw, nos
 
 
@@ -244,6 +394,28 @@ def run_impl(c, S_by_stage=None, **over):
         return ('ok', lv, float(C), {str(k): float(v) for k, v in S.items()})
     except Exception as e:
         return ('err', exc_kind(e), str(e)[:200])
+
+
+def run_heuristic(c, weight=0.5, **over):
+    """newsvendor_heuristic on the case: ('ok', {stage j: value}) or ('err', kind, msg)."""
+    from stockpyl.ssm_serial import newsvendor_heuristic
+    names = ('num_nodes', 'node_order_in_system', 'node_order_in_lists', 'echelon_holding_cost', 'lead_time', 'stockout_cost', 'demand_source', 'network')
+    try:
+        kw, nos = impl_kwargs(c, **over)
+        Sh = newsvendor_heuristic(**{a: v for a, v in kw.items() if a in names}, weight=weight)
+        return ('ok', {j: float(Sh[nos[j]]) for j in nos})
+    except Exception as e:
+        return ('err', exc_kind(e), str(e)[:200])
+
+
+def malformed_fails(c, r):
+    out = []
+    if r[0] != 'err' or r[1] != 'ValueError':
+        out.append(('optimize_base_stock_levels|malformed-%s-accepted' % c['malformed'], 'malformed input (%s) not rejected with ValueError: %r' % (c['malformed'], r[:3])))
+    hr = run_heuristic(c)      # same validation is documented for newsvendor_heuristic
+    if hr[0] != 'err' or hr[1] != 'ValueError':
+        out.append(('newsvendor_heuristic|malformed-%s-accepted' % c['malformed'], 'malformed input (%s) not rejected with ValueError: %r' % (c['malformed'], hr[:3])))
+    return out
 
 
 def run_chain(c):
@@ -476,7 +648,8 @@ def oracle(chk, c, r, rng, budget=1.0):
     # (c2) cost reported for other level vectors (evaluation mode / expected_cost) = their exact expected cost
     x_lo = tables(c)['x_lo']
     for k in range(3):
-        Sr = {j: max(1, lv[j] + rng.randint(-4, 4)) for j in lv}
+        Sr = {j: max(0 if PROBE_LEVEL_ZERO else 1, lv[j] + rng.randint(-4, 4)) for j in lv}
+        if PROBE_LEVEL_ZERO and k == 1 and rng.random() < 0.3: Sr[rng.randint(1, N)] = 0
         if k == 2:      # very low levels: the cost then depends on the linear continuation below the grid
             Sr = {j: x_lo + rng.randint(0, 6) for j in lv}
         tcr = topdown(c, pmf_, [Sr[j] for j in range(1, N + 1)])
@@ -491,6 +664,24 @@ def oracle(chk, c, r, rng, budget=1.0):
         if val is None or not rel_close(val, tcr, max(tolc, 1e-9)):
             sig = '%s|cost-of-given-levels-not-exact' % call.split('(')[0]
             bad.append((sig, '%s for levels %r returns %r, exact expected cost is %r' % (call, Sr, val if val is not None else e, tcr)))
+    # (c2') expected_holding_cost of a probe vector = its exact expected holding cost (= expected cost at stockout cost 0); through the primary form
+    # where the function can take it (it has no node-order arguments), otherwise through the alt-route network under the alt labelling
+    if c.get('probe_ehc', True):
+        from stockpyl.ssm_serial import expected_holding_cost
+        Sr = {j: max(0 if PROBE_LEVEL_ZERO else 1, lv[j] + rng.randint(-4, 4)) for j in lv}
+        if PROBE_LEVEL_ZERO and rng.random() < 0.3: Sr[rng.randint(1, N)] = 0
+        c0 = dict(c, p=0); th = topdown(c0, pmf_, [Sr[j] for j in range(1, N + 1)])
+        if c['form'] == 'network' or c['default_order']: kw, nos = impl_kwargs(c); how = 'primary form (%s)' % c['form']
+        else:
+            ids = list(c.get('alt_ids') or c['order_sys']); art = c.get('alt_route') or dict(kind='serial_system')
+            kw, nos = impl_kwargs(c, form='network', route=art, order_sys=ids, order_lists=ids[::-1], default_order=False); how = describe_route(c, art, order_sys=ids, order_lists=ids[::-1])
+        try: val = float(expected_holding_cost({nos[j]: Sr[j] for j in nos}, **{k_: v for k_, v in kw.items() if k_ not in ('node_order_in_system', 'node_order_in_lists')})); err = None
+        except Exception as ex: val = None; err = (exc_kind(ex), str(ex)[:200])
+        if val is None or not rel_close(val, th, max(tolc, 1e-9)):
+            bad.append(('expected_holding_cost|cost-of-given-levels-not-exact', 'expected_holding_cost for levels by stage %r returns %r, exact expected holding cost is %r; %s'
+                        % (Sr, val if val is not None else err, th, how)))
+    # (c2'') documented forms of the truncation / discretisation grid
+    if c.get('grid_forms'): bad += grid_forms(c, r, tolc, pmf_)
     # (c3) optimality: neighbourhood of S* (all vectors within +-2) and a coarse global grid
     tol_opt = tolc * max(1.0, abs(Cstar))
     base = [lv[j] for j in range(1, N + 1)]
@@ -553,6 +744,103 @@ def oracle(chk, c, r, rng, budget=1.0):
     return bad
 
 
+def grid_forms(c, r, tolc, pmf_):
+    """integer-demand instance, grid passed in its documented forms (x: explicit ndarray; x_num, d_num: 'ignored if a discrete distribution is provided').
+    r = result on the default grid [x_lo, x_hi] (integers, recomputed by tables(c)). Spec g = c['grid_forms'].
+      same grid:   x = the default grid as an int array and as a float arange / linspace  -> levels and cost of r
+      x_num/d_num: arbitrary values passed                                                 -> levels and cost of r
+      user grid:   x = integers g.lo..hi_u (g.lo <= 0; hi_u = g.hi ('short': may cut the optimum off) or beyond the default top ('wide')), as an int array and
+                   as a float linspace -> the two agree; the reported cost is the exact expected cost of the returned levels; every S_j is on the grid and
+                   minimises, over the grid, the exact cost of the j-stage subsystem given the levels below (that is what the algorithm computes when the
+                   grid is the decision set; below a grid that starts at or below 0 the cost is exactly linear, so the continuation used there is exact);
+                   when the grid contains the default-grid optimum the result is that optimum
+      one point:   x = [v], v <= 0 -> every level is v and the cost is the exact cost of (v, ..., v)."""
+    bad = []; g = c['grid_forms']; N = c['N']; _, lv, Cstar, raw = r
+    tb = tables(c); X0 = tb['x_lo']; X1 = X0 + tb['x_num']
+    tol = max(tolc, 1e-9)
+    def run(x=None, **kw):
+        ex = dict(kw)
+        if x is not None: ex['x'] = x
+        return run_impl(c, extra=ex)
+    def same(a, what):
+        if a[0] == 'err' or a[1] != lv or not rel_close(a[2], Cstar, 1e-12):
+            bad.append(('optimize_base_stock_levels|grid-form|same-grid-other-description-changes-result', '%s: %r vs default call %r' % (what, a[1:3], (lv, Cstar))))
+    same(run(np.arange(X0, X1 + 1)), 'x = np.arange(%d, %d) (the default grid, int)' % (X0, X1 + 1))
+    if g['same_as'] == 'linspace': same(run(np.linspace(X0, X1, X1 - X0 + 1)), 'x = np.linspace(%d, %d, %d) (the default grid)' % (X0, X1, X1 - X0 + 1))
+    else: same(run(np.arange(X0, X1 + 1, dtype=float)), 'x = np.arange(%d, %d, dtype=float) (the default grid)' % (X0, X1 + 1))
+    same(run(x_num=g['x_num'], d_num=g['d_num']), 'x_num=%d, d_num=%d on integer demand (documented: ignored)' % (g['x_num'], g['d_num']))
+    lo = g['lo']; hi = g['hi'] if g['top'] == 'short' else X1 + g['hi']
+    a = run(np.arange(lo, hi + 1)); b = run(np.linspace(lo, hi, hi - lo + 1)); what = 'x = integers %d..%d' % (lo, hi)
+    if a[0] == 'err' or b[0] == 'err' or a[1] != b[1] or not rel_close(a[2], b[2], 1e-12):
+        bad.append(('optimize_base_stock_levels|grid-form|same-grid-other-description-changes-result', '%s as int arange: %r, as float linspace: %r' % (what, a[1:3], b[1:3])))
+    if a[0] == 'ok':
+        ulv = a[1]; vec = [ulv[j] for j in range(1, N + 1)]
+        if any(not (float(v).is_integer() and lo <= v <= hi) for v in vec):
+            bad.append(('optimize_base_stock_levels|grid-form|level-not-on-user-grid', '%s: returned levels %r' % (what, ulv)))
+        else:
+            tc = topdown(c, pmf_, vec)
+            if not rel_close(tc, a[2], tol):
+                bad.append(('optimize_base_stock_levels|grid-form|reported-cost-not-cost-of-levels', '%s: C=%r but the exact expected cost of %r is %r' % (what, a[2], ulv, tc)))
+            for j in range(1, N + 1):
+                cj = dict(c, N=j, h=c['h'][:j], L=c['L'][:j], p=c['p'] + sum(c['h'][j:])); pj = {i: pmf_[i] for i in range(1, j + 1)}; memo = {}
+                cost = {y: topdown(cj, pj, vec[:j - 1] + [y], memo) for y in range(lo, hi + 1)}
+                best = min(cost, key=lambda y: cost[y])
+                if cost[vec[j - 1]] > cost[best] + tol * max(1.0, abs(cost[best])):
+                    bad.append(('optimize_base_stock_levels|grid-form|level-not-optimal-on-user-grid', '%s: stage %d level %r has cost %r (levels below %r), level %r on the grid has %r'
+                                % (what, j, vec[j - 1], cost[vec[j - 1]], vec[:j - 1], best, cost[best])))
+                    break
+            if lo <= min(lv.values()) and max(lv.values()) <= hi and not (ulv == lv and rel_close(a[2], Cstar, 1e-9)):
+                if not rel_close(a[2], Cstar, 1e-9) or not rel_close(topdown(c, pmf_, vec), topdown(c, pmf_, [lv[j] for j in range(1, N + 1)]), 1e-9):
+                    bad.append(('optimize_base_stock_levels|grid-form|user-grid-containing-optimum-changes-result', '%s: %r vs default grid %d..%d: %r' % (what, a[1:3], X0, X1, (lv, Cstar))))
+    v = g['single']; a = run(np.array([v]))
+    if a[0] == 'err' or any(a[1][j] != v for j in a[1]) or not rel_close(a[2], topdown(c, pmf_, [v] * N), tol):
+        bad.append(('optimize_base_stock_levels|grid-form|one-point-grid', 'x = [%d]: returns %r, exact expected cost of levels (%d, ..., %d) is %r' % (v, a[1:3], v, v, topdown(c, pmf_, [v] * N))))
+    return bad
+
+
+def irwin_hall_cdf(n, t):
+    """P(U_1 + ... + U_n <= t), U_i independent uniform on [0, 1] (exact rational arithmetic on a float argument)."""
+    t = Fraction(t)
+    if t <= 0: return 0.0
+    if t >= n: return 1.0
+    return float(sum((-1) ** k * math.comb(n, k) * (t - k) ** n for k in range(0, math.floor(t) + 1)) / math.factorial(n))
+
+
+def gen_uc(rng, nmax):
+    c = gen_case(rng, nmax, kinds=('UD',))      # stages, costs, numbering, shape, form, routes as in the regular stream
+    lo = rng.randint(0, 6); c['dem'] = dict(kind='UC', lo=lo, hi=lo + rng.randint(1, 8)); c['tails'] = None; c['stream'] = 'uc-heuristic'; c.pop('grid_forms', None)
+    c['L'] = [max(1, l) for l in c['L']]; c.pop('zero_lead_time', None)
+    return c
+
+
+def uc_heuristic(c):
+    """uniform-continuous demand, newsvendor_heuristic only (weight 1 and 0, primary form and alt-route network under the alt labelling): the bound of stage j is
+    the point where the cdf of the demand over the lead times of stages 1..j (a shifted, scaled Irwin-Hall distribution, computed here exactly) reaches the
+    newsvendor ratio (p + sum_{i>j} h_i) / (p + sum_i h_i) (weight 1) resp. (p + sum_{i>j} h_i) / (p + sum_{i>=j} h_i) (weight 0)."""
+    from stockpyl.ssm_serial import newsvendor_heuristic
+    from stockpyl.demand_source import DemandSource
+    bad = []; N = c['N']; d = c['dem']; H = sum(c['h']); p = c['p']
+    ds = DemandSource(type='UC', lo=d['lo'], hi=d['hi'])
+    ids = list(c.get('alt_ids') or c['order_sys']); art = c.get('alt_route') or dict(kind='serial_system')
+    names = ('num_nodes', 'node_order_in_system', 'node_order_in_lists', 'echelon_holding_cost', 'lead_time', 'stockout_cost', 'demand_source', 'network')
+    for how, over in (('primary form (%s)' % c['form'], {}), ('alt-route network', dict(form='network', route=art, order_sys=ids, order_lists=ids[::-1], default_order=False))):
+        try:
+            kw, nos = impl_kwargs(c, ds_obj=ds, **over)
+            kw = {a: v for a, v in kw.items() if a in names}
+            for wt in ((1, 0) if not over else (sum(ids) % 2,)):      # one UC call takes 0.1 .. 0.5 s: the alt-route network gets one of the two weights
+                Sh = newsvendor_heuristic(**kw, weight=wt)
+                for j in range(1, N + 1):
+                    up = sum(c['h'][j:]); ratio = (p + up) / (p + (H if wt == 1 else sum(c['h'][j - 1:])))
+                    n = sum(c['L'][:j]); Fv = irwin_hall_cdf(n, (Fraction(float(Sh[nos[j]])) - n * d['lo']) / (d['hi'] - d['lo']))
+                    if abs(Fv - ratio) > 1e-6:
+                        bad.append(('newsvendor_heuristic|UC-demand|bounds-not-fractiles', '%s, weight=%d, stage %d: bound %r, where the cdf of the %d-period demand is %r; newsvendor ratio %r'
+                                    % (how, wt, j, float(Sh[nos[j]]), n, Fv, ratio)))
+                        break
+        except Exception as ex:
+            bad.append(('newsvendor_heuristic|UC-demand|raises-%s' % exc_kind(ex), '%s: %s' % (how, str(ex)[:200])))
+    return bad
+
+
 def invariance(c, r, rng):
     bad = []; N = c['N']; _, lv, Cstar, raw = r
     ids = rng.sample(range(0, 15), N)
@@ -560,9 +848,17 @@ def invariance(c, r, rng):
     if alt[0] == 'err' or alt[1] != lv or not rel_close(alt[2], Cstar, 1e-12):
         bad.append(('optimize_base_stock_levels|relabel-changes-result', 'node ids %r: %r vs original %r' % (ids, alt[1:3], (lv, Cstar))))
     other = 'network' if c['form'] == 'params' else 'params'
-    alt = run_impl(c, form=other, default_order=False)
+    art = c.get('alt_route') or dict(kind='serial_system')
+    alt = run_impl(c, form=other, default_order=False, route=art)
     if alt[0] == 'err' or alt[1] != lv or not rel_close(alt[2], Cstar, 1e-12):
-        bad.append(('optimize_base_stock_levels|network-vs-params-differ', '%s form: %r vs %s form %r' % (other, alt[1:3], c['form'], (lv, Cstar))))
+        bad.append(('optimize_base_stock_levels|network-vs-params-differ', '%s form%s: %r vs %s form %r'
+                    % (other, ' (%s)' % describe_route(c, art) if other == 'network' else '', alt[1:3], c['form'], (lv, Cstar))))
+    bad += route_invariance(c, r, art)
+    if c['dem']['kind'] == 'N':      # normal demand passed as demand_mean / demand_standard_deviation instead of a DemandSource object
+        alt = run_impl(c, form='params', default_order=False, dem_form='mean-sd')
+        if alt[0] == 'err' or alt[1] != lv or not rel_close(alt[2], Cstar, 1e-12):
+            bad.append(('optimize_base_stock_levels|N-demand|mean-sd-arguments-vs-demand-source-differ', 'demand_mean=%r, demand_standard_deviation=%r: %r vs DemandSource: %r'
+                        % (c['dem']['mean'], c['dem']['sd'], alt[1:3], (lv, Cstar))))
     if c['dem']['kind'] == 'CD':      # the same custom-discrete demand with its (value, probability) pairs listed in another order
         d = c['dem']; pairs = list(zip(d['support'], d['weights'])); srt = sorted(pairs)
         if pairs != srt: new = srt
@@ -577,6 +873,58 @@ def invariance(c, r, rng):
         if alt[0] == 'err' or alt[1] != lv or not rel_close(alt[2], Cstar, 1e-12):
             bad.append(('optimize_base_stock_levels|CD-demand|listing-order-changes-result',
                         'demand_list %r (probabilities in the same order): %r vs demand_list %r: %r' % (d2['support'], alt[1:3], list(d['support']), (lv, Cstar))))
+    return bad
+
+
+def describe_route(c, rt, **over):
+    try:
+        kw, nos = impl_kwargs(c, form='network', route=rt, **over)
+        return 'network object built by %r, node list stored as %r = %s; stage -> node id %r' % (rt, list(kw['network'].node_indices), storage_order(kw['network'], nos), nos)
+    except Exception as ex:
+        return 'network object built by %r: construction raises %s: %s' % (rt, exc_kind(ex), str(ex)[:120])
+
+
+def route_invariance(c, r, art):
+    """the instance as a network object put together in another way (art = the case's alt_route: other construction call sequence, hence possibly
+    another storage order of the node list) and, for expected_cost / newsvendor_heuristic, under another labelling (the case's alt_ids), through every
+    entry point of ssm_serial: optimize_base_stock_levels must return the same levels and cost as for the primary form, expected_cost of the returned
+    levels must be the reported optimum (same tail probabilities as the optimisation), newsvendor_heuristic must return the same bounds stage by stage
+    as for the primary form."""
+    from stockpyl.ssm_serial import expected_cost, newsvendor_heuristic
+    bad = []; N = c['N']; _, lv, Cstar, raw = r
+    if c['form'] == 'network':      # primary form is a network already (c['route']); art differs from it
+        alt = run_impl(c, form='network', route=art)
+        if alt[0] == 'err' or alt[1] != lv or not rel_close(alt[2], Cstar, 1e-12):
+            bad.append(('optimize_base_stock_levels|network-form|construction-route-changes-result',
+                        '%s: %r vs %s: %r' % (describe_route(c, art), alt[1:3], describe_route(c, c.get('route') or dict(kind='serial_system')), (lv, Cstar))))
+    ids = list(c.get('alt_ids') or c['order_sys'])
+    over = dict(order_sys=ids, order_lists=(ids[1:] + ids[:1]), shape=('dict' if c['shape'] == 'list' else 'list'), default_order=False)
+    try:
+        kw, nos = impl_kwargs(c, form='network', route=art, **over)
+    except Exception as ex:
+        return bad + [('network construction|raises-%s' % exc_kind(ex), describe_route(c, art, **over))]
+    where = describe_route(c, art, **over)
+    if PROBE_LEVEL_ZERO or all(lv[j] for j in lv):      # expected_cost refuses a level 0 (as the (c2) probes, which stay >= 1)
+        ek = dict(_tails_default())      # expected_cost has another default for sum_ltd_upper_tail_prob than optimize_base_stock_levels: pass the ones of the optimisation
+        ek.update({k_: v for k_, v in kw.items() if k_ not in ('node_order_in_system', 'node_order_in_lists')})
+        try: val = float(expected_cost({nos[j]: lv[j] for j in nos}, **ek)); err = None
+        except Exception as ex: val = None; err = (exc_kind(ex), str(ex)[:200])
+        if val is None or not rel_close(val, Cstar, 1e-12):
+            bad.append(('expected_cost|network-form|cost-of-optimal-levels-not-optimum', 'expected_cost of S* by stage %r returns %r, reported optimum (primary form: %s) is %r; %s'
+                        % (lv, val if val is not None else err, c['form'], Cstar, where)))
+    kw0, nos0 = impl_kwargs(c)
+    names = ('num_nodes', 'node_order_in_system', 'node_order_in_lists', 'echelon_holding_cost', 'lead_time', 'stockout_cost', 'demand_source', 'network')
+    for wt in (1, 0):
+        res = []
+        for k_, n_ in ((kw0, nos0), (kw, nos)):
+            try:
+                Sh = newsvendor_heuristic(**{a: v for a, v in k_.items() if a in names}, weight=wt)
+                res.append({j: float(Sh[n_[j]]) for j in n_})
+            except Exception as ex:
+                res.append((exc_kind(ex), str(ex)[:200]))
+        if res[0] != res[1] and not (isinstance(res[0], tuple) and isinstance(res[1], tuple) and res[0][0] == res[1][0]):
+            bad.append(('newsvendor_heuristic|network-form|construction-route-changes-result', 'weight=%d: by stage %r vs primary form (%s) %r; %s' % (wt, res[1], c['form'], res[0], where)))
+            break
     return bad
 
 
@@ -664,6 +1012,19 @@ def explore(chk, n, nmax, do_model=True, n_normal=0, n_malformed=0, n_chains=0):
         chk.count('numbering=%s' % ('default' if c['default_order'] else ('N..1-explicit' if c['order_sys'] == list(range(N, 0, -1)) else 'relabelled')))
         chk.count('malformed=%s' % c['malformed'])
         if kind == 'CD': chk.count('CD demand_list order=%s' % cd_listing(c['dem']))
+        if not c['malformed'] and 0 in c['L']: chk.count('one stage with lead time 0')
+        if c.get('grid_forms') and not c['malformed']: chk.count('grid forms: user grid top=%s' % c['grid_forms']['top'])
+        if kind in ('P', 'UD', 'CD') and not c['malformed']: chk.count('expected_holding_cost probe=%s' % ('yes' if c.get('probe_ehc', True) else 'no'))
+        if not c['malformed']:
+            for tag, rt, over in (('network form', c.get('route') if c['form'] == 'network' else None, {}),
+                                  ('alt network', c.get('alt_route'), dict(order_sys=c.get('alt_ids'), order_lists=c.get('alt_ids')))):
+                if not rt: continue
+                chk.count('%s: route=%s' % (tag, route_label(rt)))
+                try:
+                    kw_, nos_ = impl_kwargs(c, form='network', route=rt, **over)
+                    chk.count('%s: node list stored %s' % (tag, storage_order(kw_['network'], nos_)))
+                except Exception as ex:
+                    chk.count('%s: construction raises %s' % (tag, exc_kind(ex)))
         if 'reuse_ds' in c:
             chk.count('session: position %d, %s' % (len(c.get('prior') or []) + 1, 'same DemandSource object' if c['reuse_ds'] else 'fresh DemandSource objects'))
             chk.count('session: base regime %s' % (c.get('prior') or [c])[0].get('regime', 'regular'))
@@ -672,8 +1033,7 @@ def explore(chk, n, nmax, do_model=True, n_normal=0, n_malformed=0, n_chains=0):
             hd = history_diff(c, r, alone[i])
             if hd: chk.fail(hd[0], hd[1], c)
         if c['malformed']:
-            if r[0] != 'err' or r[1] != 'ValueError':
-                chk.fail('optimize_base_stock_levels|malformed-%s-accepted' % c['malformed'], 'malformed input (%s) not rejected with ValueError: %r' % (c['malformed'], r[:3]), c)
+            for sig, what in malformed_fails(c, r): chk.fail(sig, what, c)
             chk.case(c, False); continue
         if r[0] == 'err':
             chk.fail('optimize_base_stock_levels|%s-demand|raises-%s' % (kind, r[1]), 'valid input raises %s: %s' % (r[1], r[2]), c)
@@ -719,6 +1079,15 @@ def explore(chk, n, nmax, do_model=True, n_normal=0, n_malformed=0, n_chains=0):
                 chk.mismatch('levels differ beyond the margin: model %r, implementation %r; C_%d at the two levels: %r vs %r' % (mlv, lv, j, float(b), float(a)), c)
 
 
+def explore_uc(chk, n, nmax):
+    """uniform-continuous demand: newsvendor_heuristic only (see uc_heuristic)."""
+    for _ in range(n):
+        c = gen_uc(chk.rng, nmax)
+        chk.count('N=%d' % c['N']); chk.count('demand=UC (newsvendor_heuristic only)'); chk.count('form=%s' % c['form'])
+        for sig, what in uc_heuristic(c): chk.fail(sig, what, c)
+        chk.case(c, False)
+
+
 def run(chk):
     chk.rule = RULE
     chk.trusted += ['model Alg/SSM.v is hand-written; tied to /repo by comparison of the returned level dict (margin rule) and C* (1e-9 relative) on generated '
@@ -733,9 +1102,9 @@ def run(chk):
     chk.extra.setdefault('near_tie_skipped', 0)
     chk.proof()
     if chk.tier == 'quick':
-        explore(chk, 150, 3, n_normal=8, n_malformed=10, n_chains=22)
+        explore(chk, 150, 3, n_normal=8, n_malformed=14, n_chains=22); explore_uc(chk, 4, 2)
     else:
-        explore(chk, 1100, 4, n_normal=40, n_malformed=50, n_chains=150)
+        explore(chk, 1100, 4, n_normal=40, n_malformed=80, n_chains=150); explore_uc(chk, 40, 3)
     if (chk.broken or chk.mismatches) and not chk.fails:
         explore(chk, 300 if chk.tier == 'quick' else 1500, 3 if chk.tier == 'quick' else 4, do_model=False, n_normal=10, n_chains=40 if chk.tier == 'quick' else 200)
 
@@ -743,14 +1112,16 @@ def run(chk):
 def replay(chk, rp):
     import random
     c = rp['case']
+    if c.get('stream') == 'uc-heuristic':
+        for sig, what in uc_heuristic(c): chk.fail(sig, what, c)
+        chk.case(c); return
     r = run_chain(c) if c.get('prior') else run_impl(c)      # a session case: re-create the session (predecessors first) in this process
     print('implementation:', jsonable(r))
     if c.get('prior'):
         hd = history_diff(c, r, solve_alone([c])[0])
         if hd: chk.fail(hd[0], hd[1], c)
     if c.get('malformed'):
-        if r[0] != 'err' or r[1] != 'ValueError':
-            chk.fail('optimize_base_stock_levels|malformed-%s-accepted' % c['malformed'], 'not rejected: %r' % (r[:3],), c)
+        for sig, what in malformed_fails(c, r): chk.fail(sig, what, c)
     elif r[0] == 'err':
         chk.fail('optimize_base_stock_levels|%s-demand|raises-%s' % (c['dem']['kind'], r[1]), r[2], c)
     else:
